@@ -1,6 +1,7 @@
 package props
 
 import (
+	"sort"
 	"bytes"
 	"context"
 	"encoding/json"
@@ -544,6 +545,14 @@ func C06(r *h.Run) {
 		r.Sample("connect_end", map[string]any{"in": in, "error": fmt.Sprint(res.err)})
 		r.Case("connect_end", fmt.Sprintf("ConnectEnd %s %s", jend, coqOptCode(res.err)), map[string]any{"in": in, "impl_error": fmt.Sprint(res.err)})
 		// case-insensitive lookup of in-body metadata
+		// two spellings of one field: both values belong to it
+		if strings.Contains(e, `"X-Foo":["bar"],"x-foo":["baz"]`) && res.err == nil {
+			vals := append([]string(nil), res.trailer.Values("X-Foo")...)
+			sort.Strings(vals)
+			if len(vals) != 2 || vals[0] != "bar" || vals[1] != "baz" {
+				r.Fail(h.Failure{Key: "client/end-stream-metadata-case", Family: "connect_end", What: "one trailer field spelled in two casings in the end-of-stream metadata: not both values are visible under the field", Input: in, Expected: []string{"bar", "baz"}, Actual: vals})
+			}
+		}
 		if strings.Contains(e, `"x-foo":["bar"]`) && res.err == nil {
 			if got := res.trailer.Get("X-Foo"); got != "bar" {
 				r.Fail(h.Failure{Key: "client/end-stream-metadata-case", Family: "connect_end", What: "trailer sent with a lower-case key in the end-of-stream metadata is invisible to Header.Get", Input: in, Expected: "bar", Actual: got})
